@@ -9,6 +9,8 @@
 //@rule PUBSTRUCT :: ^(\s*)(?:pub(?:\(crate\))? )?struct :: \1pub struct :: R7
 //@rule INTOADDR :: address: impl Into<Address<M>> :: address: A :: R14 impl-Trait argument as a named generic
 //@rule GENERICA3 :: <M, F, S>\( :: <M, F, S, A: Into<Address<M>>>( :: R14
+//@rule GENERICA5 :: <M, C, F, U, S>\( :: <M, C, F, U, S, A: Into<Address<M>>>( :: R14
+//@rule GENERICA7 :: <M, C, D, F, U, Q, S>\( :: <M, C, D, F, U, Q, S, A: Into<Address<M>>>( :: R14
 //@rule RETITER :: -> impl Iterator<Item = R> \+ '_ :: -> ReplyIter<R> :: R7 opaque return type as a stub type
 //@rule THROW :: \.unwrap_or_throw\(\) :: .unwrap_or_throw_() :: R10 (panics with the error payload = divergence)
 //@pyrule PUBFIELDS :: pub_fields() :: R7
@@ -150,6 +152,78 @@ impl<T: Clone + Send + 'static> Output<T> {
     }
 //@end
 
+//@item src=nexosim/src/ports/output.rs kind=fn name=map_connect within=`impl<T: Clone \+ Send \+ 'static> Output<T>` id=Output::map_connect rules=INTOADDR,GENERICA5,SENDER
+    pub fn map_connect<M, C, F, U, S, A: Into<Address<M>>>(&mut self, map: C, input: F, address: A)
+    where
+        M: Model,
+        C: Fn(&T) -> U + Send + Sync + 'static,
+        F: for<'a> InputFn<'a, M, U, S> + Clone,
+        U: Send + 'static,
+        S: Send + 'static,
+        //@[
+        ensures
+            exists|id: int| final(self).broadcaster.shared().senders() == #[trigger] old(self).broadcaster.shared().senders().push(id),   //@ #connection-added-to-the-shared-list
+        //@]
+    {
+        let sender = mk_sender();
+        self.broadcaster.write().unwrap().add(sender);
+    }
+//@end
+
+//@item src=nexosim/src/ports/output.rs kind=fn name=map_connect_sink within=`impl<T: Clone \+ Send \+ 'static> Output<T>` id=Output::map_connect_sink rules=SENDER
+    pub fn map_connect_sink<C, U, S>(&mut self, map: C, sink: &S)
+    where
+        C: Fn(&T) -> U + Send + Sync + 'static,
+        U: Send + 'static,
+        S: EventSink<U>,
+        //@[
+        ensures
+            exists|id: int| final(self).broadcaster.shared().senders() == #[trigger] old(self).broadcaster.shared().senders().push(id),   //@ #connection-added-to-the-shared-list
+        //@]
+    {
+        let sender = mk_sender();
+        self.broadcaster.write().unwrap().add(sender);
+    }
+//@end
+
+//@item src=nexosim/src/ports/output.rs kind=fn name=filter_map_connect within=`impl<T: Clone \+ Send \+ 'static> Output<T>` id=Output::filter_map_connect rules=INTOADDR,GENERICA5,SENDER
+    pub fn filter_map_connect<M, C, F, U, S, A: Into<Address<M>>>(
+        &mut self,
+        filter_map: C,
+        input: F,
+        address: A,
+    ) where
+        M: Model,
+        C: Fn(&T) -> Option<U> + Send + Sync + 'static,
+        F: for<'a> InputFn<'a, M, U, S> + Clone,
+        U: Send + 'static,
+        S: Send + 'static,
+        //@[
+        ensures
+            exists|id: int| final(self).broadcaster.shared().senders() == #[trigger] old(self).broadcaster.shared().senders().push(id),   //@ #connection-added-to-the-shared-list
+        //@]
+    {
+        let sender = mk_sender();
+        self.broadcaster.write().unwrap().add(sender);
+    }
+//@end
+
+//@item src=nexosim/src/ports/output.rs kind=fn name=filter_map_connect_sink within=`impl<T: Clone \+ Send \+ 'static> Output<T>` id=Output::filter_map_connect_sink rules=SENDER
+    pub fn filter_map_connect_sink<C, U, S>(&mut self, filter_map: C, sink: &S)
+    where
+        C: Fn(&T) -> Option<U> + Send + Sync + 'static,
+        U: Send + 'static,
+        S: EventSink<U>,
+        //@[
+        ensures
+            exists|id: int| final(self).broadcaster.shared().senders() == #[trigger] old(self).broadcaster.shared().senders().push(id),   //@ #connection-added-to-the-shared-list
+        //@]
+    {
+        let sender = mk_sender();
+        self.broadcaster.write().unwrap().add(sender);
+    }
+//@end
+
 //@item src=nexosim/src/ports/output.rs kind=fn name=send within=`impl<T: Clone \+ Send \+ 'static> Output<T>` id=Output::send rules=DEASYNC,THROW
     pub fn send(&mut self, arg: T)
         //@[
@@ -173,6 +247,56 @@ impl<T: Clone + Send + 'static, R: Send + 'static> Requestor<T, R> {
     where
         M: Model,
         F: for<'a> ReplierFn<'a, M, T, R, S> + Clone,
+        S: Send + 'static,
+        //@[
+        ensures
+            exists|id: int| final(self).broadcaster.shared().senders() == #[trigger] old(self).broadcaster.shared().senders().push(id),   //@ #connection-added-to-the-shared-list
+        //@]
+    {
+        let sender = mk_sender();
+        self.broadcaster.write().unwrap().add(sender);
+    }
+//@end
+
+//@item src=nexosim/src/ports/output.rs kind=fn name=map_connect within=`impl<T: Clone \+ Send \+ 'static, R: Send \+ 'static> Requestor<T, R>` id=Requestor::map_connect rules=INTOADDR,GENERICA7,SENDER
+    pub fn map_connect<M, C, D, F, U, Q, S, A: Into<Address<M>>>(
+        &mut self,
+        query_map: C,
+        reply_map: D,
+        replier: F,
+        address: A,
+    ) where
+        M: Model,
+        C: Fn(&T) -> U + Send + Sync + 'static,
+        D: Fn(Q) -> R + Send + Sync + 'static,
+        F: for<'a> ReplierFn<'a, M, U, Q, S> + Clone,
+        U: Send + 'static,
+        Q: Send + 'static,
+        S: Send + 'static,
+        //@[
+        ensures
+            exists|id: int| final(self).broadcaster.shared().senders() == #[trigger] old(self).broadcaster.shared().senders().push(id),   //@ #connection-added-to-the-shared-list
+        //@]
+    {
+        let sender = mk_sender();
+        self.broadcaster.write().unwrap().add(sender);
+    }
+//@end
+
+//@item src=nexosim/src/ports/output.rs kind=fn name=filter_map_connect within=`impl<T: Clone \+ Send \+ 'static, R: Send \+ 'static> Requestor<T, R>` id=Requestor::filter_map_connect rules=INTOADDR,GENERICA7,SENDER
+    pub fn filter_map_connect<M, C, D, F, U, Q, S, A: Into<Address<M>>>(
+        &mut self,
+        query_filter_map: C,
+        reply_map: D,
+        replier: F,
+        address: A,
+    ) where
+        M: Model,
+        C: Fn(&T) -> Option<U> + Send + Sync + 'static,
+        D: Fn(Q) -> R + Send + Sync + 'static,
+        F: for<'a> ReplierFn<'a, M, U, Q, S> + Clone,
+        U: Send + 'static,
+        Q: Send + 'static,
         S: Send + 'static,
         //@[
         ensures
